@@ -68,12 +68,18 @@ class BoundProv(BasePolicy):
     """P:<param> through copies, float casts, broadcasting against ones; an
     infinite default (no bound) is vacuous."""
 
-    def __init__(self, params):
+    def __init__(self, params, prog=None, fn=None, seeds=None, top=None):
         self.params = params
-        self.top = frozenset(f"P:{p}" for p in params)
+        self.top = top if top is not None else frozenset(f"P:{p}" for p in params)
+        self.prog, self.fn, self.seeds = prog, fn, seeds
 
     def initial(self, flow):
+        if self.seeds is not None:
+            return dict(self.seeds)
         return {p: frozenset({f"P:{p}"}) for p in self.params}
+
+    def clone_for(self, callee, seeds):
+        return BoundProv([], self.prog, callee, seeds, self.top)
 
     def _is_inf_default(self, e):
         return isinstance(e, ast.BinOp) and isinstance(e.op, ast.Mult) and any(const_num(x) in (float("inf"), float("-inf")) for x in (e.left, e.right))
@@ -162,7 +168,7 @@ def check(ctx):
     clamp_summary(ctx, prog, R.inverse, "self.orig_lb", "self.orig_ub", "inverse transform")
     tinit = T.find_method("__init__")
     tparams = [p for p in tinit.params if p not in ("self", "D")]
-    bf = TagFlow(prog, tinit, BoundProv(tparams))
+    bf = TagFlow(prog, tinit, BoundProv(tparams, prog, tinit))
     for attr, param in (("orig_lb", tparams[0]), ("orig_ub", tparams[1])):
         sts = attr_stores(prog, T, attr)
         if not sts:
